@@ -234,8 +234,8 @@ class GenV:
 class NS:
     """simple attribute bag (dataclasses.Field stand-in, ghost records...)"""
 
-    def __init__(self, **kw):
-        self.__dict__.update(kw)
+    def __init__(*a, **kw):
+        a[0].__dict__.update(kw)
 
 
 class EnumMember:
@@ -414,6 +414,7 @@ class Interp:
         self.notes = []
         self.used_contracts = set()
         self.used_inlined = set()
+        self.call_log = {}
         from . import builtins_ as B
 
         self.B = B
